@@ -92,8 +92,10 @@ func findRemovals(fn *ssa.Function) []removal {
 }
 
 // filterRemoval describes the second removal idiom: the registry is rebuilt from a loop over itself,
-//   kept := empty; for _, s := range root.subscriptions { if drop(s) { s.sub.Unsubscribe() } else { kept = append(kept, s) } }
-//   root.subscriptions = kept
+//
+//	kept := empty; for _, s := range root.subscriptions { if drop(s) { s.sub.Unsubscribe() } else { kept = append(kept, s) } }
+//	root.subscriptions = kept
+//
 // An element is removed exactly when it is not appended.
 type filterRemoval struct {
 	store   *ssa.Store
